@@ -13,23 +13,30 @@ PRE = 'requires fits(*old(self)),'
 ADV = 'advanced(*old(self), *final(self)),'
 HEAD = ('{', 'after', 'broadcast use lex_lemmas;')
 
-D7_OLD = """            for (f, s) in [
-                ('d', 't'),
-                ('n', 's'),
-                ('u', 's'),
-                ('m', 's'),
-                ('µ', 's'),
-                ('i', 'm'),
-            ] {
-                if self.first() == f && self.second() == s {
-                    return true;
-                }
-            }"""
-D7_NEW = '\n'.join("""            { let (f, s) = ('%s', '%s');
-                if self.first() == f && self.second() == s {
-                    return true;
-                }
-            }""" % p for p in [('d', 't'), ('n', 's'), ('u', 's'), ('m', 's'), ('µ', 's'), ('i', 'm')])
+def _d7():
+    """D7: `for (f, s) in [('a', 'b'), ..] { BODY }` over a literal array of char pairs -> one `{ let (f, s) = ('a', 'b'); BODY }` per
+    pair AS WRITTEN in /repo (Verus has no iteration over array literals).  Read from the source on every run."""
+    import os
+    from vlib.unit import REPO
+    src = open(os.path.join(REPO, 'crates/oq3_lexer/src/lib.rs')).read()
+    m = re.search(r"(?m)^([ \t]*)for \(f, s\) in \[\n((?:[ \t]*\('(?:[^'\\]|\\.)', '(?:[^'\\]|\\.)'\),\n)+)[ \t]*\] \{\n", src)
+    if not m:
+        return ('D7', 'for (f, s) in [', 'for (f, s) in [')          # shape gone: nothing to unroll (Verus will say so)
+    start = m.start()
+    depth, i = 1, m.end()
+    while depth and i < len(src):
+        depth += {'{': 1, '}': -1}.get(src[i], 0)
+        i += 1
+    old = src[start:i]
+    body = src[m.end():i - 1].rstrip()
+    ind = m.group(1)
+    pairs = re.findall(r"\(('(?:[^'\\]|\\.)'), ('(?:[^'\\]|\\.)')\)", m.group(2))
+    new = '\n'.join('%s{ let (f, s) = (%s, %s);\n%s\n%s}' % (ind, a_, b_, body, ind) for a_, b_ in pairs)
+    return ('D7', old, new)
+
+
+D7 = _d7()
+D7_OLD, D7_NEW = D7[1], D7[2]
 
 
 def scanner(name, extra_req='', extra_ens='', **kw):
